@@ -471,7 +471,8 @@ def gen_list(c, depth, in_quote, nested=False):
         # recorded finding: blank lines after an empty last item of a nested list are not seen by the enclosing list
         items[-1].a['children'] = [N('para', inl=[N('text', s='filler')], indent=0)]
     return N('list', ordered=ordered, start=t.choice([1, 1, 1, 0, 7, 42, 999999999 - n_items + 1]) if ordered else None,
-             delim=t.choice('.)'), bullet=t.choice('-+*'), loose=loose, items=items)
+             delim=t.choice('.)'), bullet=t.choice('-+*'), loose=loose, items=items,
+             zeros=0 if (c.canonical or c.reflow) else t.weighted([(6, 0), (1, 1), (1, 2)]))
 
 
 def gen_table(c):
